@@ -103,8 +103,8 @@ PROPS["C19"] = dict(streams=[FAULTS, LIFE], rule=PROV_RULE + "; faults stream: b
 ISOLATION = dict(name="isolation", quick=(4, 600), thorough=(20, 3000))
 INFRACTION = dict(name="infraction", quick=(4, 600), thorough=(20, 3000))
 PROPS["C19"]["streams"] = PROPS["C19"]["streams"] + [dict(name="rewardfaults", quick=(8, 600), thorough=(24, 3000))]
-PROPS["C13"]["streams"] = [LIFE, ISOLATION, INFRACTION]
-PROPS["C13"]["fields"] = r"^c\d+\.|^g\.(spawnq|removeq|infrq|client2c|chan2c)"
+PROPS["C13"]["streams"] = [LIFE, ISOLATION, INFRACTION, dict(name="rewards", quick=(3, 400), thorough=(12, 2500))]
+PROPS["C13"]["fields"] = r"^c\d+\.|^g\.(spawnq|removeq|infrq|client2c|chan2c)"  # (c<id>.alloc included)
 PROPS["C13"]["rule"] = PROV_RULE + "; isolation stream: 13 consumers (ids 0..12, so 1/10/11/12 coexist) launched first, then key assignments, opt-ins/outs, updates, removals and epochs interleaved; infraction stream: several launched consumers scheduling parameter changes in the same block"
 PROPS["C20"]["streams"] = [LIFE, INFRACTION]
 PROPS["C05"]["streams"].append(ISOLATION)
